@@ -46,9 +46,21 @@ pub fn zoo() -> SchemaDoc {
 }
 
 fn prog(doc: Vec<QDef>, tweak: impl Fn(&mut Opts)) -> Program {
+    prog_on(zoo(), doc, tweak)
+}
+
+fn prog_on(schema: SchemaDoc, doc: Vec<QDef>, tweak: impl Fn(&mut Opts)) -> Program {
     let mut opts = Opts { response_derives: Some("Serialize,Debug".into()), visibility: Some("pub".into()), ..Opts::default() };
     tweak(&mut opts);
-    Program { schema: zoo(), doc: QueryDoc { defs: doc }, opts, tags: vec!["directed".into()] }
+    Program { schema, doc: QueryDoc { defs: doc }, opts, tags: vec!["directed".into()] }
+}
+
+/// the zoo with interfaces and fields added by type extensions
+pub fn zoo_extended() -> SchemaDoc {
+    let mut z = zoo();
+    z.defs.push(TypeDef::Extend { name: "Cat".into(), implements: vec!["Named".into()], fields: vec![f("nick", n("String"))] });
+    z.defs.push(TypeDef::Extend { name: "Person".into(), implements: vec![], fields: vec![f("age", nn(n("Int")))] });
+    z
 }
 
 fn op(name: &str, sel: Vec<Sel>) -> QDef {
@@ -94,5 +106,19 @@ pub fn directed() -> Vec<Program> {
     ], |_| {}));
     // 8. skip_serializing_none + warn deprecations + only-typename selections
     out.push(prog(vec![op("Thin", vec![Sel::obj("pet", vec![t()]), Sel::obj("me", vec![fld("name"), Sel::obj("best", vec![t(), on("Dog", vec![t(), fld("id")])])]), Sel::obj("dog", vec![t()])])], |o| { o.skip_serializing_none = true; }));
+    // 9. an abstract position whose selection is `__typename` plus ONE spread of a fragment on a member type
+    out.push(prog(vec![
+        frag("DogOnly", "Dog", vec![fld("name"), fld("barks")]),
+        frag("CatOnly", "Cat", vec![fld("lives")]),
+        op("OneSpread", vec![Sel::obj("pet", vec![t(), sp("DogOnly")]), Sel::obj("animals", vec![t(), sp("CatOnly")]), Sel::obj("search", vec![t(), sp("DogOnly")])]),
+    ], |_| {}));
+    // 10. implementors and fields that come from `extend type`
+    out.push(prog_on(zoo_extended(), vec![
+        op("Extended", vec![Sel::obj("named", vec![t(), fld("name"), on("Cat", vec![fld("nick"), fld("lives")]), on("Person", vec![fld("age")])]), Sel::obj("me", vec![fld("age"), Sel::obj("pets", vec![t(), on("Cat", vec![fld("nick")])])])]),
+    ], |_| {}));
+    // 11. the same schema, the extension's implementor only as a runtime type
+    out.push(prog_on(zoo_extended(), vec![
+        op("ExtendedPlain", vec![Sel::obj("named", vec![t(), fld("name")]), Sel::obj("me", vec![fld("age"), fld("name")])]),
+    ], |_| {}));
     out
 }
